@@ -193,6 +193,17 @@ theorem readHeader_total (f : File) : Total (readHeader f) := L.readHeader_total
 theorem readHeader_ok (f : File) (toc : SimpleSection) (n pos : Nat) (h : readHeader f = .ok (toc, n, pos)) :
     pos < two32 ∧ pos ≤ f.data.length ∧ toc.off < two32 ∧ toc.sz < two32 := L.readHeader_ok f toc n pos h
 
+/-- **`simpleSection / compoundSection / lazyCompoundSection .read` are total** (kind by kind), started at a `uint32`
+    position inside the mapping; a success leaves the reader inside the mapping, not moved backwards -/
+theorem secRead_total (f : File) (k : Kind) (r : Rd) (hr : r.off < two32) (hl : r.off ≤ f.data.length) :
+    Total (secRead f k r).1 ∧ ∀ v, (secRead f k r).1 = .ok v → r.off ≤ (secRead f k r).2.off ∧ (secRead f k r).2.off ≤ f.data.length := by
+  obtain ⟨t, _, s⟩ := L.good_secRead f k r hr hl
+  exact ⟨t, fun v hv => (s v hv).2⟩
+
+/-- **`section.skip` is total** for the three kinds (the dummy sections of unknown tags, and filtered sections) -/
+theorem secSkip_total (f : File) (k : Kind) (r : Rd) (hr : r.off < two32) (hl : r.off ≤ f.data.length) :
+    Total (secSkip f k r).1 := (L.good_secSkip f k r hr hl).1
+
 /-- **one iteration of the tagged TOC loop** (`tag := Str(); kind := Varint();` then read / skip / unknown-kind error):
     started at a `uint32` position inside the mapping it returns a value or an error, and a success has moved the
     reader strictly forward, still inside the mapping -/
